@@ -41,7 +41,7 @@ func nested(opt int) bool {
 // choosing a wrong alternative therefore ends in a syntax error, also when the decision is taken
 // inside another lookahead (nested variant, used with recursiveLookaheads):
 //
-//	Top : (?= In) S -> T0 | (?= !In) tw -> T1 ;   In : S ;
+//	Top : (?= In) S -> T0 | (?= !In) F F tw -> T1 ;   In : S ;
 var markers = []string{"p", "q", "r", "s"}
 
 func tmFor(k caseT, name string, opt int) string {
@@ -56,7 +56,9 @@ func tmFor(k caseT, name string, opt int) string {
 	}
 	fmt.Fprintf(&sb, "\n:: parser\n\n%%input %s;\n\n", start)
 	if nested(opt) {
-		sb.WriteString("Top : (?= In) S -> T0 | (?= !In) tw -> T1 ;\n\nIn : S ;\n\n")
+		// both alternatives start with the flag tokens, so choosing between them needs the runtime
+		// predicate In, whose evaluation runs the S decision inside a lookahead
+		fmt.Fprintf(&sb, "Top : (?= In) S -> T0 | (?= !In) %s tw -> T1 ;\n\nIn : S ;\n\n", strings.TrimSpace(strings.Repeat("F ", k.M)))
 	}
 	sb.WriteString("S :\n")
 	flags := strings.TrimSpace(strings.Repeat("F ", k.M))
@@ -101,6 +103,15 @@ func uniqueAlt(k caseT, assign int) int {
 }
 
 func layerB(c *core.Ctx, accepted []caseT, maxGrammars int) {
+	// every accepted set over <=2 predicates is also built in the nested (recursiveLookaheads)
+	// variant: negated cases in a decision list only arise with >=3 alternatives
+	var small []caseT
+	for _, k := range accepted {
+		if k.M <= 2 {
+			small = append(small, k)
+		}
+	}
+	c.Set("layerB_all_sets_over_2_predicates_nested", len(small))
 	if len(accepted) > maxGrammars {
 		var sel []caseT
 		for i := 0; i < maxGrammars; i++ {
@@ -123,6 +134,9 @@ func layerB(c *core.Ctx, accepted []caseT, maxGrammars int) {
 		} else {
 			jobs = append(jobs, job{k, i})
 		}
+	}
+	for _, k := range small {
+		jobs = append(jobs, job{k, 2})
 	}
 	const batch = 100
 	for start := 0; start < len(jobs); start += batch {
